@@ -379,6 +379,25 @@ def twin_algorithms(ctx, rng, cls, fields, tag):
             _cmp(ctx, a_, fresh(c, Pn, D, m), fields, "twin_algorithms", cls,
                  f"{order[0]} and {order[1]} sharing one run-parameter object (method left to the class): {c}'s result differs from a lone {c}'s")
         return
+    if rng.random() < 0.35:
+        # two algorithms of one class in one setup that differ in a single parameter (anything a shared intermediate could be keyed without)
+        _, P2_ = spec(cls)
+        k_ = str(rng.choice([k for k in P1 if P1[k] != P2_.get(k, P1[k]) and k not in ("ordmax", "br")] or [list(P1)[0]]))
+        Pb = dict(copy.deepcopy(P1), **{k_: copy.deepcopy(P2_.get(k_, P1[k_]))})
+        if "ordmin" in Pb and Pb["ordmin"] >= Pb.get("ordmax", 99):
+            Pb["ordmin"] = 0
+        order_ = [("s1", P1), ("s2", Pb)] if rng.random() < 0.5 else [("s2", Pb), ("s1", P1)]
+        algs_ = [make_alg(cls, P_, name=n_) for n_, P_ in order_]
+        s.add_algorithms(*algs_)
+        s.run_all()
+        s.run_all()
+        m_ = mpe_args(cls, P1, D["fn"])
+        for a_ in algs_:
+            do_mpe(s, a_.name, m_)
+        ctx.ev(tag)
+        for (n_, P_), a_ in zip(order_, algs_):
+            _cmp(ctx, a_, fresh(cls, P_, D, m_), fields, "twin_algorithms", cls, f"two {cls} in one setup differing only in {k_!r}: the result of {n_!r} differs from a lone algorithm's")
+        return
     if rng.random() < 0.5:
         t1, t2 = make_alg(cls, P1, name="t1"), make_alg(cls, P1, name="t2")
         shared = False
